@@ -5,19 +5,19 @@ import json, subprocess
 CLAIMED = {
  # id: (design_ref, level text, level note)
  "C01": ("DESIGN.md 4/C01",
-   "Proof of function contracts: isHandledBuiltinCall is true exactly for *ssa.Builtin values with a handled name (and error.Error()), never for a user function that merely has a builtin's name; doBuiltinCall transfers whenever the call was declared handled and moves every argument of min/max/complex/len/real/imag/wrapnilchk, append and copy as the property requires; shared with C08: summary edges for every return index and every argument position. The end-to-end theorem (every explicit source-to-sink flow is reported) is not proved.",
+   "Proof of function contracts: isHandledBuiltinCall is true exactly for *ssa.Builtin values with a handled name (and error.Error()), never for a user function that merely has a builtin's name; doBuiltinCall transfers whenever the call was declared handled and moves every argument of min/max/complex/len/real/imag/wrapnilchk, append and copy as the property requires; shared with C08: summary edges for every return index and every argument position; markValue propagates a mark to the object a value was derived from for every kind of derived value (slice, interface box, element/field address and projection, load through a pointer whatever the loaded type, map iterator, tuple extraction); addNewPathCandidate records every (source, sink) pair whose nodes have instructions; per-iteration clauses of the traversal taint.Visitor.Visit: a node that matches a sink while tracing is reported and not expanded, filtered and sanitizer nodes are not expanded, an expanded call / bound-variable / closure / synthetic node has its out-edges followed. The end-to-end theorem (every explicit source-to-sink flow is reported) is not proved.",
    "Trusted: as C05 plus SSA lowering facts stated as preconditions (append/complex have two operands). Not decided: visitor dispatch, global stores through IndexAddr (anticipated finding, not yet under contract), soundness of the composition."),
  "C02": ("DESIGN.md 4/C02",
-   "Proof of function contracts for the validator half: isValidatorCondition(ts, v, pos) answers true only if the branch `v evaluates to pos` implies that a call matching a validator specification reported success (true / nil error) -- polarity through !, == nil, != nil and tuple extraction proved against axioms stating Go's semantics of those operators; MatchNilCheck recognises exactly x==nil / x!=nil on error values and reports which; SimplePathCondition returns only conditions of If instructions on the given path with the polarity of the successor taken. The clause `every attached condition holds on ALL paths source->destination` is a known finding (5.7, with reproducer). The sanitizer half (BFS stop at sanitizer nodes) and the visitor's use of the conditions are not under contract.",
+   "Proof of function contracts for the validator half: isValidatorCondition(ts, v, pos) answers true only if the branch `v evaluates to pos` implies that a call matching a validator specification reported success (true / nil error) -- polarity through !, == nil, != nil and tuple extraction proved against axioms stating Go's semantics of those operators; MatchNilCheck recognises exactly x==nil / x!=nil on error values and reports which; SimplePathCondition returns only conditions of If instructions on the given path with the polarity of the successor taken. The clause `every attached condition holds on ALL paths source->destination` is a known finding (5.7, with reproducer). Sanitizer half: in every iteration of the traversal's main loop a node that matches a sanitizer is not expanded (no successor is enqueued) -- a per-iteration clause of taint.Visitor.Visit with iteration-local events. That the data reaching a sink 'was returned by the sanitizer call' in the property's sense, and the visitor's use of the validator conditions inside addNext, are not under contract.",
    "Trusted: as C05; sem_*/acc_* axioms (Go semantics of !, ==nil, !=nil, Extract; acc_call: a matched call that reported success is an accepted validation); assumed contracts of IsMatchingCodeIDWithCallee (true only if the node matched) and FindPathBetweenBlocks (path blocks non-nil); deps axiom if_two_succs. Recursion: partial correctness (termination of the structural recursion not proved)."),
  "C03": ("DESIGN.md 4/C03",
-   "Proof of one function contract (thin): backtrace.isBaseCase lets the backward traversal stop at a node (reporting the trace that ends there) only when the node has no intra-procedural incoming edge, and never at a node kind that receives inter-procedural flows (parameter, call, call argument, closure, bound variable, free variable, a read of a global that is written somewhere or any global read under on-demand summarisation, a global write with incoming edges); the function literal inside isBaseCase is executed in place. The traversal itself (Visitor.visit: call-stack unwinding, closure jumps, trace reconstruction) is not under contract; the single-tuple-index defect that affects it is the known finding recorded under C17.",
+   "Proof of function contracts (thin): backtrace.isBaseCase lets the backward traversal stop at a node (reporting the trace that ends there) only when the node has no intra-procedural incoming edge, and never at a node kind that receives inter-procedural flows (parameter, call, call argument, closure, bound variable, free variable, a read of a global that is written somewhere or any global read under on-demand summarisation, a global write with incoming edges); the function literal inside isBaseCase is executed in place. Per-iteration clauses of the traversal backtrace.Visitor.visit (iteration-local events): a base-case node has its trace recorded (addTrace) and is not expanded; an expanded return-value / call / synthetic / bound-variable node has its incoming edges followed; the jump from a read of a global to its write locations pushes only nodes with a nil call stack. Call-stack unwinding, closure jumps and trace reconstruction are not under contract; the single-tuple-index defect that affects the traversal is the known finding recorded under C17.",
    "Trusted: as C05; getters In()/Global are executed by inlining over the closed world of node kinds."),
  "C04": ("DESIGN.md 4/C04",
    "Proof of function contracts: a code identifier with compiled regexes has all of them compiled (compileRegexes / compileRegexOrLiteral never store nil), the matcher never dereferences nil and its result is exactly the conjunction, field by field, of `reference field empty or its own regex matches` plus Kind equality (both the regex and the literal branch); builtin-name shadowing obligation shared with C01. Callee resolution through points-to sets is not covered.",
    "Trusted: as C05; assumed contracts of regexp.Compile/MustCompile/MatchString (deps.spec); the Interface field clause is outside the claim (cidRef.Interface == \"\")."),
  "C05": ("DESIGN.md 4/C05",
-   "Proof of function contracts: FnReadsFrom returns true for every operand slot of every ssa.Instruction kind (slots extracted from go/ssa's Operands methods) except the pure write destinations, FnWritesTo for exactly those; loop invariants and callee contracts discharged by SMT for all inputs. The whole-program theorem (equal verdicts for every option combination) is not proved.",
+   "Proof of function contracts: FnReadsFrom returns true for every operand slot of every ssa.Instruction kind (slots extracted from go/ssa's Operands methods) except the pure write destinations, FnWritesTo for exactly those; loop invariants and callee contracts discharged by SMT for all inputs; TestAlarmCount / IncrementAndTestAlarms compare the alarm count with max-alarms as mathematical integers and never suppress the first alarm; ShouldBuildSummary builds nothing eagerly in on-demand mode, always builds required summaries and honours the pkg-filter; per-iteration clause of taint.Visitor.Visit: unless summaries may be ignored, reaching a write to a global runs the scan that builds the summaries of the functions reading it, in every summarisation mode. The whole-program theorem (equal verdicts for every option combination) is not proved.",
    "Trusted: go/ssa SSA construction, govc VC generator, SMT solvers, closed world of ssa.Instruction/ssa.Value implementers, SSA objects not mutated by callees. Not decided: pkg-filter/report/log options, visitor-level equality of results."),
  "C07": ("DESIGN.md 4/C07",
    "Proof of function contracts: lang.InstrSwitch never reaches its panic for any of the closed set of ssa.Instruction kinds (MultiConvert excluded by precondition) and dispatches each kind to the visitor method of that kind. Termination/crash-freedom of the analyses as wholes is not proved.",
